@@ -77,6 +77,15 @@ BadDoc ==
   /\ nbad' = nbad + 1
   /\ UNCHANGED <<docs, snap>>
 
+\* the recorder found that the tree the store built from a conforming event stream is not the document
+\* (a node missing, misplaced or mislabelled): every property quantifies over the document's nodes, so the
+\* event is a rejection, reported with the recorder's description
+TreeFault ==
+  /\ IsEvent("treefault")
+  /\ PrintT(ToJson([verdict |-> [val |-> "ok", ord |-> "ok", frame |-> "ok", tree |-> "bad"], l |-> l, want |-> [t |-> "none"]]))
+  /\ nbad' = nbad + 1
+  /\ UNCHANGED <<docs, snap>>
+
 \* C13 frame condition: everything the client held before the call (every node-set, element by
 \* element, and the document, by digest) is unchanged after it
 FrameOK(ev) == snap = <<>> \/ ~Has(ev, "held") \/
@@ -163,6 +172,6 @@ Done ==
   /\ l' = l + 1
   /\ UNCHANGED <<docs, nbad, snap>>
 
-Next == LoadDoc \/ BadDoc \/ ExecRet \/ UnmarshalEv \/ ResliceEv \/ Done
+Next == LoadDoc \/ BadDoc \/ TreeFault \/ ExecRet \/ UnmarshalEv \/ ResliceEv \/ Done
 TraceSpec == Init /\ [][Next]_vars
 =============================================================================
